@@ -763,6 +763,9 @@ class SegmentationImage:
         """
         self.check_labels(labels)
 
+        if new_label < 0:
+            raise ValueError('new_label must be a non-negative integer.')
+
         labels = np.atleast_1d(labels)
         if labels.size == 0:
             return
